@@ -123,7 +123,7 @@ class ComputationCache:
             comp(only)
             # Mark individual as no longer changed.
             self._chromosome.changed = False
-        elif len(cache) != len(funcs):
+        elif (only not in cache) if only is not None else any(f not in cache for f in funcs):
             # The individual has not changed, but not all values are cached.
             # So we might have to compute the missing ones.
             comp(only)
